@@ -195,7 +195,7 @@ CHECKS = {
         "object (MRO, metaclass, canonical attributes, call script on instance/class/subclass)",
         "Class statements over 6 base shapes, implicit/explicit metaclass, keywords consumed by "
         "__init_subclass__, 0-2 decorators incl. one returning a different object, every member set of "
-        "size <= 2 from 18 member kinds, placed at module level, in a function, in a class, in a class "
+        "size <= 2 from 26 member kinds, placed at module level, in a function, in a class, in a class "
         "in a function, global-declared in a function and captured by a closure; the harness compares "
         "MRO, bases, metaclass, user attributes, where the name is bound and the results of a fixed "
         "call script against the class CPython builds. Quick: all size-<=1 sets + every 6th size-2 set.",
